@@ -494,39 +494,38 @@ def _memoised_functions():
     return _CACHED
 
 
-_MODULE_STATE = {}
+_TRACKED = []          # (container, content when first seen)
+_TRACKED_IDS = set()
+_SCANNED = [0, 0]      # (len(sys.modules), calls) at the last scan
+
+
+def _scan_module_containers():
+    import sys
+    for name, mod in list(sys.modules.items()):
+        if not (name == 'txtorcon' or name.startswith('txtorcon.')) or mod is None:
+            continue
+        for k, v in list(vars(mod).items()):
+            if type(v) in (dict, list, set) and not k.startswith('__') and id(v) not in _TRACKED_IDS:
+                _TRACKED_IDS.add(id(v))
+                # a container first seen after executions have run was created lazily: its pristine content is "empty"
+                _TRACKED.append((v, type(v)(v) if _SCANNED[1] == 0 else type(v)()))
 
 
 def _reset_module_containers():
     """module-level dicts / lists / sets of the library (caches, registries) go back to what they held when first seen, so that
     no execution sees what an earlier one left there; state that builds up WITHIN an execution is part of that execution"""
     import sys
-    for name, mod in list(sys.modules.items()):
-        if not (name == 'txtorcon' or name.startswith('txtorcon.')) or mod is None:
-            continue
-        snap = _MODULE_STATE.get(name)
-        if snap is None:
-            snap = _MODULE_STATE[name] = {}
-            for k, v in list(vars(mod).items()):
-                if type(v) in (dict, list, set) and not k.startswith('__'):
-                    snap[k] = (v, type(v)(v))
-            continue
-        for k, (obj, orig) in snap.items():
-            if type(obj) is dict:
-                if obj != orig or len(obj) != len(orig):
-                    obj.clear()
-                    obj.update(orig)
-            elif type(obj) is list:
-                if obj != orig:
-                    obj[:] = orig
-            elif obj != orig:
+    if _SCANNED[0] != len(sys.modules) or _SCANNED[1] % 512 == 0:
+        _scan_module_containers()
+        _SCANNED[0] = len(sys.modules)
+    _SCANNED[1] += 1
+    for obj, orig in _TRACKED:
+        if len(obj) != len(orig) or obj != orig:
+            if type(obj) is list:
+                obj[:] = orig
+            else:
                 obj.clear()
                 obj.update(orig)
-        # containers that appeared later (created lazily at module level)
-        for k, v in list(vars(mod).items()):
-            if type(v) in (dict, list, set) and not k.startswith('__') and k not in snap:
-                snap[k] = (v, type(v)())
-                v.clear()
 
 
 def reset_globals():
